@@ -147,6 +147,11 @@ SPECS = [
     dict(name="smc_loop_body", py="samplers/smc/base.py:SMCSampler.sample", mode="smcloop", part="body"),
     dict(name="smc_epilogue", py="samplers/smc/base.py:SMCSampler.sample", mode="smcloop", part="epilogue"),
     dict(name="smc_driver", py="samplers/smc/base.py:SMCSampler.sample", mode="smcloop", part="driver"),
+    # the context managers (fourth vocabulary: ctx2lean.py)
+    dict(name="pool_enter", py="utils.py:PoolHandler.__enter__", mode="ctx", part="pool_enter"),
+    dict(name="pool_exit", py="utils.py:PoolHandler.__exit__", mode="ctx", part="pool_exit"),
+    dict(name="auto_enter", py="aspire.py:Aspire.auto_checkpoint", mode="ctx", part="auto_enter"),
+    dict(name="auto_finally", py="aspire.py:Aspire.auto_checkpoint", mode="ctx", part="auto_finally"),
 ]
 
 # module -> (imports, functions): one generated file per group so that an untranslatable function only breaks the
@@ -163,5 +168,6 @@ GROUPS = {
     "SrcFlows": ([], ["zuko_log_prob", "zuko_sample_and_log_prob", "flowjax_log_prob", "flowjax_sample_and_log_prob"]),
     "SrcDump": ([], ["dump_pickle_to_hdf"]),
     "SrcLoop": ([], ["should_checkpoint", "loop_exit", "init_min_step", "resume_loop_flag", "final_evidence"]),
+    "SrcCtx": (["CtxOps"], ["pool_enter", "pool_exit", "auto_enter", "auto_finally"]),
     "SrcSmcLoop": (["LoopOps"], ["smc_maybe_checkpoint", "smc_loop_body", "smc_epilogue", "smc_driver"]),
 }
